@@ -22,6 +22,7 @@
    8. the statements for the code as repaired (lreach, no_lost_wakeup, both_sleep_quiescent: unconditional)
       and as found (lreach_asfound, no_lost_wakeup_asfound: the exception characterised exactly,
       no_lost_wakeup_asfound_refuted)
+   9. generator_sweep      the Gallina generator of iteration sequences the boolean statement was tested with
    Names ending in _v are parametrised by fx (false: runonce as found, true: repaired). *)
 From Coq Require Import List NArith Ascii Bool Lia.
 From SV Require Import Lib.Bytes Model.Wire Model.Chan Model.Stream Model.StreamQuiet Model.StreamDrain Model.StreamLoop
@@ -1226,3 +1227,57 @@ Theorem both_sleep_quiescent_asfound (strict lat : bool) maxc lbs w :
   no_late_stopb Client w = true -> no_late_stopb Server w = true ->
   (if strict then quiescent_eagerb w else quiescentb w) = true.
 Proof. intros Hl Hs H1 H2. apply (both_sleep_quiescent_v strict false lat maxc lbs w Hl Hs). right. auto. Qed.
+
+(* ================================================================== *)
+(* 9. The generator the statement was tested with before it was proved  *)
+(* ================================================================== *)
+(* pseudo-random walks: connections arriving, iterations of either end with generated answers of select()
+   (tunnel readable / writable, sockets ready) and of the socket calls (data, EOF, EAGAIN, errors on recv / send /
+   connect / shutdown); the boolean statement is evaluated in EVERY state of every walk *)
+Definition g_lcg (s : N) : N := (s * 1103515245 + 12345) mod 2147483648.
+Definition g_pick (s k : N) : N := (s / 65536) mod k.
+Definition g_ios : list io :=
+  [ lw_io0; lw_io0;
+    mkIO ConnDone RecvEof (SendAccept 65536) true;
+    mkIO ConnDone (RecvData lw_x) (SendAccept 65536) true;
+    mkIO ConnDone RecvErr (SendAccept 65536) true;
+    mkIO ConnDone RecvAgain (SendErr EOtherErr) true;
+    mkIO ConnDone RecvAgain (SendErr EPipe) true;
+    mkIO (ConnErr EInProgress) RecvAgain SendAgain true;
+    mkIO (ConnErr ENet) RecvAgain SendAgain true;
+    mkIO ConnDone RecvEof (SendAccept 65536) false;
+    mkIO ConnDone (RecvData lw_x) SendAgain true ].
+Definition g_io (n : N) : io := nth (N.to_nat (n mod 11)) g_ios lw_io0.
+
+Definition g_ans (s : N) (w : world) (sd : side) : answers :=
+  let s1 := g_lcg s in let s2 := g_lcg s1 in let s3 := g_lcg s2 in
+  let nin := length (rx_link sd w) in
+  mkAns false [] (negb (g_pick s1 4 =? 0)) (negb (g_pick s2 3 =? 0))
+        (fun k => (map (fun j => g_io (g_pick s3 11 + N.of_nat j)) (seq 0 (if g_pick s3 5 =? 0 then 1%nat else nin)),
+                   negb (g_pick s3 7 =? 0)))
+        (fun f => negb (g_pick (g_lcg (s3 + f)) 3 =? 0))
+        (fun f k => g_io (g_pick (g_lcg (s2 + 7 * f + N.of_nat k)) 23)).
+
+Definition g_move (fx : bool) (s : N) (w : world) : result world :=
+  let s0 := g_lcg s in
+  if (g_pick s0 9 =? 0) && (e_next (w_cl w) <? 3) then step w (EvAccept [])
+  else let sd := if g_pick s0 2 =? 0 then Client else Server in iteration_v fx true sd (g_ans s0 w sd) w.
+
+Definition g_prop (fx : bool) (w : world) : bool :=
+  forallb (fun sd => implb (sleeps_eagerb_v fx sd w) (sleep_okb_v fx false sd w) &&
+                     implb (sleepsb_v fx sd w) (sleep_okb_v fx true sd w)) [Client; Server].
+
+Fixpoint g_walk (fx : bool) (n : nat) (s : N) (w : world) : bool :=
+  g_prop fx w &&
+  match n with
+  | O => true
+  | S n' => match g_move fx s w with
+            | Ok w' => g_walk fx n' (g_lcg (g_lcg (g_lcg (g_lcg s)))) w'
+            | Crash _ => true
+            end
+  end.
+
+Example generator_sweep :
+  forallb (fun i => g_walk false 30 (N.of_nat i * 7919 + 1) (world0 5 32768) &&
+                    g_walk true 30 (N.of_nat i * 7919 + 1) (world0 5 32768)) (seq 0 60) = true.
+Proof. vm_compute. reflexivity. Qed.
